@@ -9,7 +9,8 @@ import array
 import pysam
 
 # >= 100000 bp: the tagger's contig-per-process job plan treats shorter contigs specially (that plan is C05's subject)
-CONTIGS = [('chr1', 120000), ('chr2', 120000)]
+# two contigs of EQUAL length whose names are prefixes of each other
+CONTIGS = [('chr1', 120000), ('chr11', 120000)]
 
 
 def header():
@@ -18,7 +19,11 @@ def header():
 
 
 def make_reference(rng, n=120000):
-    return ''.join(rng.choices('ACGT', k=n))
+    """Random reference with a 12-bp run of N every 997 bp (assembly gaps are part of real references)."""
+    s = rng.choices('ACGT', k=n)
+    for i in range(500, n - 20, 997):
+        s[i:i + 12] = 'N' * 12
+    return ''.join(s)
 
 
 def soft_masked(ref, period=37):
@@ -112,7 +117,8 @@ def build_read(hdr, ref, chrom, name, mate, is_r1, paired, mate_rev=None, tags=N
     a.mapping_quality = mapq
     a.next_reference_id = -1
     a.next_reference_start = -1
-    a.set_tag('MD', md_tag(ref, mate['start'], mate['cigar'], mate['seq']))
+    if not mate.get('nomd'):
+        a.set_tag('MD', md_tag(ref, mate['start'], mate['cigar'], mate['seq']))
     for k, v in (tags or {}).items():
         a.set_tag(k, v)
     return a
@@ -129,6 +135,18 @@ def build_reads(hdr, ref, chrom, name, frag, tags=None):
         b.next_reference_id, b.next_reference_start = a.reference_id, a.reference_start
     if frag['form'] == 'r1short':
         return [a]
+    if frag['form'] == 'r2unmapped':     # half-mapped pair: the second mate is unmapped and placed at its mate's position
+        b = pysam.AlignedSegment(hdr)
+        b.query_name = name
+        b.query_sequence = 'ACGTACGT'
+        b.query_qualities = array.array('B', [30] * 8)
+        b.flag = 0x1 | 0x4 | 0x80 | (0x20 if r1['rev'] else 0)
+        b.reference_id, b.reference_start = a.reference_id, a.reference_start
+        b.next_reference_id, b.next_reference_start = a.reference_id, a.reference_start
+        a.flag |= 0x1 | 0x8
+        a.next_reference_id, a.next_reference_start = a.reference_id, a.reference_start
+        for k, v in (tags or {}).items():
+            b.set_tag(k, v)
     return [a, b]
 
 
@@ -136,11 +154,15 @@ def random_cigar(rng, length, allow_gaps=True):
     """CIGAR with `length` query bases. Mostly one M block; sometimes D / I / N / S inside."""
     if length < 4 or not allow_gaps or rng.random() < 0.8:
         return [{'op': 'M', 'n': length}]
-    kind = rng.choice('DINS')
+    kind = rng.choice('DINSH')
     if kind == 'S':
         k = rng.randint(1, 2)
         return rng.choice([[{'op': 'S', 'n': k}, {'op': 'M', 'n': length - k}],
                            [{'op': 'M', 'n': length - k}, {'op': 'S', 'n': k}]])
+    if kind == 'H':     # hard clip: consumes neither query nor reference
+        k = rng.randint(1, 30)
+        return rng.choice([[{'op': 'H', 'n': k}, {'op': 'M', 'n': length}], [{'op': 'M', 'n': length}, {'op': 'H', 'n': k}],
+                           [{'op': 'H', 'n': k}, {'op': 'S', 'n': 1}, {'op': 'M', 'n': length - 1}]])
     a = rng.randint(1, length - 2)
     if kind == 'I':
         k = rng.randint(1, min(2, length - a - 1))
